@@ -2,8 +2,10 @@
 from .core import *
 
 def run(res):
-    proof = proof_stage(res, "C12", extra_obligations=1)
-    build_harness(); build_ml()
+    t_ok, t_log = rs2v("require_kind")       # Tie 1: which statements are members is decided by get_expression_kind
+    proof = proof_stage(res, "C12", extra_obligations=3) if t_ok else dict(ok=False, discharged=0, theorems=[], log=t_log, broken_at="rs2v: " + t_log.strip()[-300:])
+    if not t_ok: res.coverage.update(obligations=3, discharged=0, checker_cmd="rs2v /repo coq/gen", trusted_base=list(TRUSTED_BASE))
+    build_harness(); gen_ok = build_ml()
     n = 20000 if res.tier == "quick" else 400000
     def cmds(i, k):
         return [SVH, "c12", "--n", str(n), "--seed", str(res.seed), "--shard", "%d/%d" % (i, k), "--dir", os.path.join(REPO, "tests", "inputs-sort-requires")], [driver("drv_c12")]
@@ -16,14 +18,25 @@ def run(res):
             for k, v in parse_kv(l).items(): stats[k] = stats.get(k, 0) + int(v)
         elif l.startswith("BAD"): bads.append(l)
         elif l.startswith("SAMPLE") and len(samples) < 6: samples.append(l[7:])
+    # the regenerated classification kernel against the harness's classification (which the judge above uses)
+    rq = {}
+    if gen_ok and os.path.exists(driver("drv_req")):
+        r = sh([SVH, "c12", "--n", str(min(n, 4000)), "--seed", str(res.seed + 3)], check=False)
+        j = subprocess.run([driver("drv_req")], input="\n".join(l for l in r.stdout.splitlines() if l.startswith("RQ")) + "\n", stdout=subprocess.PIPE, stderr=subprocess.PIPE, text=True)
+        for l in j.stdout.splitlines():
+            if l.startswith("SUMMARY"): rq = {k: int(v) for k, v in parse_kv(l).items()}
+            elif l.startswith("BAD"): bads.append("BAD classification:%s %s" % (l.split()[1], "-".join(l.split()[3:5])))
+        if r.returncode != 0 or j.returncode != 0 or not rq.get("records"): errs.append("classification tie did not run")
+    else: errs.append("the regenerated kernel gen/RequireKind.v could not be extracted")
     tie_ok = not errs and not bads and tot.get("cases", 0) > 0 and tot.get("cases") == stats.get("cases")
-    if proof["ok"] and tie_ok: res.coverage["discharged"] = proof["discharged"] + 1
+    if proof["ok"] and tie_ok: res.coverage["discharged"] = proof["discharged"] + 3
+    res.coverage["kernels_translated"] = ["src/sort_requires.rs :: extract_identifier_from_token, get_expression_kind -> coq/gen/RequireKind.v (rs2v)"]
     res.coverage.update(
         evaluations=tot.get("cases", 0), distinct_nontrivial=tot.get("reordered", 0),
         rule="%d seeded random programs (2-15 top-level statements drawn from: require in 5 spellings incl. call sugar, a multi-line call and a Luau `:: any` assertion, game:GetService, two-name locals, plain assignments, other statements; "
              "names from a pool with duplicates and mixed case; blank lines, comment lines, same-line block comments, trailing comments, semicolons, `stylua: ignore`, `ignore start`/`end`) plus the repository's sort-requires inputs; "
-             "each formatted with sort_requires on and off; non-trivial = the model moves at least one statement (cases are generated from consecutive PRNG draws, not deduplicated: counted conservatively as reordered cases)" % n,
-        samples=samples or ["-"], input_distribution=dict(tot, **stats),
+             "near misses of the classification (game.GetService, game:FindFirstChild, (require)(..), require(..).field, requirex, bare game / require); each formatted with sort_requires on and off; non-trivial = the model moves at least one statement (cases are generated from consecutive PRNG draws, not deduplicated: counted conservatively as reordered cases)" % n,
+        samples=samples or ["-"], input_distribution=dict(tot, classification_tie=rq, **stats),
         correspondence="per case: statement bodies and leading comments of the formatted output, slot by slot, = SortReq.sort_requires (extracted, with the byte-wise string order) on the input's statement list; "
                        "sort off = input order; and directly: permutation of statements, permutation of comments, non-require statements keep their slots")
     res.assumptions = ["statements are identified by their erased token sequence (quotes normalised, parentheses and semicolons dropped) plus trailing comments",
